@@ -16,7 +16,9 @@ CONSTANTS DeclSet,     \* set of [decl, allowed, greedy] configurations
           EnvSet(_),   \* configuration -> set of environments (sequences of byte strings)
           ArgvSet(_),  \* configuration -> set of argument vectors
           MaxParses,   \* number of parse calls on one parser object (C14)
-          EnvChanges   \* BOOLEAN: the process environment may change between two calls on one parser
+          EnvChanges,  \* BOOLEAN: the process environment may change between two calls on one parser
+          LetterAdds(_) \* configuration -> set of <<option index, letter>>: short names the application may attach to
+                       \* already declared options between two calls on one parser (AddLetter)
 
 VARIABLES cfg,         \* the chosen configuration
           env,         \* the process environment (changes only between parse calls: ChangeEnv)
@@ -47,6 +49,7 @@ Init ==
   /\ argv = <<>> /\ cursor = 1 /\ st = Fresh /\ onlyPos = FALSE /\ byDD = FALSE
   /\ positionals = <<>> /\ acct = <<>> /\ phase = "idle" /\ reason = "" /\ chk = 1 /\ hist = <<>>
 
+LettersNow == [i \in 1..N |-> decl[i].letter]
 LettersUnique == \A i, j \in 1..N : i # j /\ decl[i].letter # 0 => decl[i].letter # decl[j].letter
 
 (* every parse call starts from a clean slate, whatever the previous call did (C14) *)
@@ -56,7 +59,7 @@ BeginParse ==
   /\ cursor' = 1 /\ st' = Fresh /\ onlyPos' = FALSE /\ byDD' = FALSE /\ positionals' = <<>>
   /\ acct' = <<>> /\ chk' = 1
   /\ IF LettersUnique THEN phase' = "scan" /\ reason' = "" /\ hist' = hist
-     ELSE phase' = "error" /\ reason' = "Inconsistent" /\ hist' = Append(hist, [argv |-> argv', res |-> [oc |-> "parser_error", st |-> <<>>, pos |-> <<>>], why |-> "Inconsistent", via |-> "argv", env |-> env])
+     ELSE phase' = "error" /\ reason' = "Inconsistent" /\ hist' = Append(hist, [argv |-> argv', res |-> [oc |-> "parser_error", st |-> <<>>, pos |-> <<>>], why |-> "Inconsistent", via |-> "argv", env |-> env, letters |-> LettersNow])
   /\ UNCHANGED <<cfg, env>>
 
 Scanning == phase = "scan" /\ cursor <= Len(argv)
@@ -66,7 +69,7 @@ OptionMode == Scanning /\ ~onlyPos /\ ~IsValueTok(Tok) /\ ~IsDD(Tok)
 
 Fail(why) ==
   /\ phase' = "error" /\ reason' = why
-  /\ hist' = Append(hist, [argv |-> argv, res |-> ErrorOutcome, why |-> why, via |-> "argv", env |-> env])
+  /\ hist' = Append(hist, [argv |-> argv, res |-> ErrorOutcome, why |-> why, via |-> "argv", env |-> env, letters |-> LettersNow])
   /\ UNCHANGED <<cfg, env, argv, cursor, st, onlyPos, byDD, positionals, acct, chk>>
 
 Consume(k, entries) ==
@@ -193,7 +196,7 @@ Result == [oc |-> "ok",
 Finish ==
   /\ phase = "check" /\ chk > N
   /\ phase' = "done"
-  /\ hist' = Append(hist, [argv |-> argv, res |-> Result, why |-> "", via |-> "argv", env |-> env])
+  /\ hist' = Append(hist, [argv |-> argv, res |-> Result, why |-> "", via |-> "argv", env |-> env, letters |-> LettersNow])
   /\ UNCHANGED <<cfg, env, argv, cursor, st, onlyPos, byDD, positionals, acct, reason, chk>>
 
 ScanStep == ScanPositional \/ ScanTooManyPositionals \/ ScanGreedyMalformed \/ ScanDoubleDash \/ ScanBad
@@ -204,14 +207,25 @@ CheckStep == CheckGiven \/ CheckOtherSource \/ CheckFails
 (* Between two calls the process environment may change (setenv by the application, a wrapper script).  The   *)
 (* parser object keeps nothing from it: the next call reads the environment as it is then (C03, C14).  The    *)
 (* machine goes back to "idle", so everything said about a finished call is said about the call's own env.    *)
-ChangeEnv ==
-  /\ EnvChanges /\ phase \in {"idle", "done", "error"} /\ Len(hist) < MaxParses
-  /\ env' \in EnvSet(cfg) \ {env}
+BackToIdle ==
+  /\ phase \in {"idle", "done", "error"} /\ Len(hist) < MaxParses
   /\ phase' = "idle" /\ argv' = <<>> /\ cursor' = 1 /\ st' = Fresh /\ onlyPos' = FALSE /\ byDD' = FALSE
   /\ positionals' = <<>> /\ acct' = <<>> /\ reason' = "" /\ chk' = 1
+ChangeEnv ==
+  /\ EnvChanges /\ BackToIdle
+  /\ env' \in EnvSet(cfg) \ {env}
   /\ UNCHANGED <<cfg, hist>>
 
-Next == BeginParse \/ ScanStep \/ EndScan \/ CheckStep \/ Finish \/ ChangeEnv
+(* Between two calls the application may also go on declaring.  Modelled: attaching a short name to an option   *)
+(* that has none yet (the number of options stays the same).  The next call is made with the declaration as it  *)
+(* is then: the new letter is understood, and if it collides with another option's letter the parser refuses.  *)
+AddLetter ==
+  /\ BackToIdle
+  /\ \E p \in LetterAdds(cfg) : /\ decl[p[1]].letter = 0
+                                /\ cfg' = [cfg EXCEPT !.decl[p[1]].letter = p[2]]
+  /\ UNCHANGED <<env, hist>>
+
+Next == BeginParse \/ ScanStep \/ EndScan \/ CheckStep \/ Finish \/ ChangeEnv \/ AddLetter
 Spec == Init /\ [][Next]_vars /\ WF_vars(ScanStep \/ EndScan \/ CheckStep \/ Finish)
 
 ------------------------------------------------------------------------------------------------------
@@ -247,10 +261,11 @@ MachineIsMeaning ==
     \/ Outcome = M
     \/ GreedyOpen(decl, greedy, argv)   \* ... except where the properties leave the outcome open
 (* ... and, C14, on *every* call of a history: what the k-th call returned is the meaning of its vector alone *)
+DeclAt(k) == [i \in 1..N |-> [decl[i] EXCEPT !.letter = hist[k].letters[i]]]      \* the declaration as it was at call k
 Repeatable ==
-  \A k \in 1..Len(hist) : \/ hist[k].res = (IF hist[k].via = "inputs" THEN MeaningViaInputs(decl, allowed, greedy, hist[k].env, hist[k].argv)
-                                           ELSE Meaning(decl, allowed, greedy, hist[k].env, hist[k].argv))
-                           \/ GreedyOpen(decl, greedy, hist[k].argv)
+  \A k \in 1..Len(hist) : \/ hist[k].res = (IF hist[k].via = "inputs" THEN MeaningViaInputs(DeclAt(k), allowed, greedy, hist[k].env, hist[k].argv)
+                                           ELSE Meaning(DeclAt(k), allowed, greedy, hist[k].env, hist[k].argv))
+                           \/ GreedyOpen(DeclAt(k), greedy, hist[k].argv)
                            \/ hist[k].res.oc = "parser_error"
 
 (* C04: the error is raised exactly under the documented conditions *)
@@ -327,9 +342,9 @@ AfterDDEverythingPositional ==
 
 (* export: one case per finished history *)
 CaseRec == [cfg |-> cfg.id, env |-> env, calls |-> hist,      \* each call carries the environment it was made in
-            open |-> [k \in 1..Len(hist) |-> GreedyOpen(decl, greedy, hist[k].argv)],
+            open |-> [k \in 1..Len(hist) |-> GreedyOpen(DeclAt(k), greedy, hist[k].argv)],
             \* expected outcome class of the same calls made through parse(vector<user_input>)
             inputs |-> [k \in 1..Len(hist) |-> IF hist[k].res.oc = "parser_error" THEN "parser_error"
-                                               ELSE MeaningViaInputs(decl, allowed, greedy, hist[k].env, hist[k].argv).oc]]
+                                               ELSE MeaningViaInputs(DeclAt(k), allowed, greedy, hist[k].env, hist[k].argv).oc]]
 Emit == (Terminal /\ Len(hist) = MaxParses) => PrintT("CASE " \o ToJson(CaseRec))
 =============================================================================
